@@ -9,17 +9,36 @@ FAKES = ("Redis/MongoDB/Zarr classes run against in-memory fakes of the few clie
          "(no servers, redis/pymongo/zarr/numpy are not installed); TLC 1.8, SANY, CPython 3.12 and the harness "
          "(value codec, realisations, comparators) are trusted")
 
+BUF = ("TLC generates input sequences from spec/BufContract.tla (exhaustive BFS of a tiny instance with the Level-1 "
+       "invariants/action properties checked, plus tlc -simulate of a larger one); the harness executes them on the real "
+       "{Buffered,MemoryBuffered}JSON{,Attr}{Dict,List} classes recording every returned value, exception, file content, "
+       "file rewrite, reported size and capacity; TLC (spec/TraceBuf.tla) decides whether each recorded trace is a "
+       "behaviour of BufContract, and the failing observation clause of a rejected trace is named by re-validation with "
+       "that clause relaxed")
+BUFNOTE = ("bounds of spec/MC_BufContract.tla; BufContract is deliberately nondeterministic where the properties leave a "
+           "choice; objects on one file are only used in a common buffered state; outside writes are always detectable; " + FAKES)
+
 CHECKS = {
     "C01": dict(
-        technique="TLC enumeration of spec/PyOps.tla + Contract.tla edges replayed on all 18 classes; raw resource compared",
+        technique="TLC enumeration of spec/PyOps.tla edges replayed on all 18 classes; raw resource compared",
         category="model_checking",
         text=("TLC enumerates every (container state, mutator, argument) edge of the operation catalogue "
-              "(MC_PyOps) and the reachable multi-step graph of Contract.tla within small bounds; every edge is "
-              "executed on the real classes at nesting depth 1-3 in three write configurations and the raw "
-              "resource, read without the library, must equal the spec's successor content exactly. Bounded "
-              "model checking of the spec plus replay conformance; not a proof beyond the bounds."),
-        note="bounds of spec/MC_PyOps.tla and MC_Contract.tla; PyOps cross-validated against CPython on every edge; " + FAKES,
+              "(MC_PyOps) within small bounds; every edge is executed on the real classes at nesting depth 1-3 in "
+              "three write configurations (default, write_concern, multithreading support disabled) and the raw "
+              "resource, read without the library, must equal the spec's successor content exactly. Multi-step "
+              "histories are covered by C04's Contract.tla replay. Bounded model checking plus replay conformance."),
+        note="bounds of spec/MC_PyOps.tla; PyOps cross-validated against CPython on every edge; " + FAKES,
         design="5/C01"),
+    "C02": dict(
+        technique="TLC BFS/simulation of spec/Contract.tla (outside writer, retained child handles) replayed on all classes",
+        category="model_checking",
+        text=("Contract.tla models several root objects and retained nested-child handles on one resource plus an "
+              "outside writer; TLC explores a small instance exhaustively (checking the Level-1 invariants) and "
+              "simulates a larger one; sampled edges (with shortest paths) and simulated behaviours are replayed on "
+              "the real classes: every read must return the model value, writes through attached children must "
+              "persist, nested objects must be of the root's family."),
+        note="bounds of spec/MC_Contract.tla; handles that lose their guarantee are dropped; " + FAKES,
+        design="5/C02"),
     "C03": dict(
         technique="TLC depth-1 enumeration of spec/PyOps.tla (cross-validated vs CPython) replayed on all classes",
         category="model_checking",
@@ -30,6 +49,53 @@ CHECKS = {
               "result, exception class and content."),
         note="bounded value/argument sets listed in spec/MC_PyOps.tla; dict order not modelled; " + FAKES,
         design="5/C03"),
+    "C04": dict(
+        technique="TLC BFS/simulation of spec/Contract.tla (2 objects + child handles on one resource) replayed on all classes",
+        category="model_checking",
+        text=("Same generator as C02; after every mutator issued through any handle the raw resource must equal "
+              "the model document, i.e. the operation applied at the handle's path to the CURRENT document, so "
+              "changes made through other handles survive."),
+        note="bounds of spec/MC_Contract.tla; " + FAKES, design="5/C04"),
+    "C05": dict(technique="TLC-generated inputs (BufContract.tla) executed on buffered classes; recorded traces validated by TLC (TraceBuf.tla)",
+                category="model_checking", text=BUF + ". C05: one object per file; claimed clauses: returned values, file contents, file rewrites, exceptions.",
+                note=BUFNOTE, design="5/C05"),
+    "C06": dict(technique="TLC-generated inputs (BufContract.tla, two objects on one file) executed; traces validated by TLC (TraceBuf.tla)",
+                category="model_checking", text=BUF + ". C06: two objects bound to one file in a common buffered state.",
+                note=BUFNOTE, design="5/C06"),
+    "C07": dict(technique="TLC-generated inputs with outside writers (BufContract.tla, 2 files) executed; traces validated by TLC (TraceBuf.tla)",
+                category="model_checking", text=BUF + ". C07: two files / three objects with an outside writer; claimed clauses: file contents, rewrites, which files an error names, capacity afterwards.",
+                note=BUFNOTE, design="5/C07"),
+    "C11": dict(technique="TLC enumeration of forbidden-argument edges (MC_PyOps tier=forbid) replayed on all classes; memory and backend scanned",
+                category="model_checking",
+                text=("TLC enumerates every mutating entry point x forbidden item kind x position of the item inside the "
+                      "argument and checks the catalogue invariants (forbidden argument => rejected, nothing forbidden in the "
+                      "result, rejected single-element operation changes nothing); every edge is executed at root / nested "
+                      "dict / nested list / depth 3 on every class; constructor data and the reflected public API surface "
+                      "are checked too."),
+                note="bounds of spec/MC_PyOps.tla (tier forbid); NaN/Infinity not treated as forbidden; Zarr forbids only non-string keys; " + FAKES,
+                design="5/C11"),
+    "C12": dict(technique="TLC enumeration of storing edges over all bounded JSON values, replayed with concretisation pools; fresh-object read-back",
+                category="model_checking",
+                text=("Every storing entry point x every bounded JSON value (5 leaf types, nesting depth 2) enumerated by TLC "
+                      "is executed and read back through a fresh object, comparing structure and leaf types; abstract atoms "
+                      "are concretised from pools of boundary scalars; random deeper values supplement (exploration)."),
+                note="byte-level scalar encoding only sampled through the pools; " + FAKES, design="5/C12"),
+    "C15": dict(technique="TLC-generated inputs with capacity changes (BufContract.tla) executed; reported size/capacity validated by TLC (TraceBuf.tla)",
+                category="model_checking", text=BUF + ". C15: claimed clauses: reported size and capacity after every step.",
+                note=BUFNOTE + "; EncLen of the spec equals len(json.dumps) on the bounded atoms", design="5/C15"),
+    "C16": dict(technique="TLC-enumerated container-taking/returning edges replayed with user-side mutation of arguments/results",
+                category="model_checking",
+                text=("For every MC_PyOps edge that takes a container argument or returns detached data the harness mutates "
+                      "every container reachable from what the user holds and requires collection() and the raw backend "
+                      "unchanged; arguments are also passed as live synced children of the same tree and of another "
+                      "collection and independence is checked both ways."),
+                note="bounds of spec/MC_PyOps.tla; " + FAKES, design="5/C16"),
+    "C17": dict(technique="TLC-enumerated read edges + Contract/BufContract read-only behaviours replayed with write auditing; buffered traces validated by TLC",
+                category="model_checking",
+                text=("All read edges of MC_PyOps on existing and missing resources for all classes with an audit hook on "
+                      "open/replace and inode/size/mtime (or fake write counters) compared; reads/navigation in Contract.tla "
+                      "histories; read-only input sequences of BufContract.tla in nested buffered contexts validated by TLC."),
+                note="bounds of the three MC_* modules; " + FAKES, design="5/C17"),
 }
 
 PENDING_REASON = "check not built yet in this round (planned: see DESIGN.md section 5); nothing is claimed for it"
